@@ -301,3 +301,15 @@ let () =
          | Some t -> (match glycan_mol false (strip_tree t) with Some m -> "1" | None -> "NOSPEC")
          | None -> "ERR-tree")
     | _ -> "BADARGS")
+
+(* ------------------------------------------------------------------ grammar (C15) *)
+let () =
+  register "accepts" (function
+    | [s] -> (match accepts token_table rules start_rule (explode s) with
+              | Some true -> "1" | Some false -> "0" | None -> "FUEL")
+    | _ -> "BADARGS");
+  register "lex" (function
+    | [s] -> (match lex token_table (nat_of_int (String.length s + 1)) (explode s) with
+              | Some l -> String.concat "\x1f" (List.map (fun (n, t) -> implode n ^ "\x1e" ^ escape (implode t)) l)
+              | None -> "NOLEX")
+    | _ -> "BADARGS")
